@@ -9,6 +9,7 @@ from harness import oracles as O
 from harness.props import c01 as base
 
 PROP = "C18"
+EXC_KINDS = ["closed", "oserror", "cancelled", "eof", "timeout", "builtin-timeout", "runtime", "lookup", "value"]
 
 
 def oracle(frames, seq, how, exc_kind):
@@ -66,7 +67,7 @@ def gen_cases(tier, seed):
             else:
                 c = rng.choice(pool)
                 frames.append(c[3] if len(str(c[3])) < 20000 else '[2,"x","Nope",{}]')
-        cases.append((version, [hb], frames, rng.choice(["closed", "oserror", "cancelled", "eof"]), rng.random() < 0.3))
+        cases.append((version, [hb], frames, EXC_KINDS[i % len(EXC_KINDS)], rng.random() < 0.3))
     # fixed sequences: the same id again and again, null / falsy ids, more unsolicited replies than any
     # small buffer holds, empty frames, a handler slower than the response timeout, a slow async after-hook
     hbp = g.route("Heartbeat", ("ret", {"current_time": "t"}))
@@ -97,9 +98,6 @@ def gen_cases(tier, seed):
             continue
         seen.add(key)
         decimal_msg = isinstance(f, str) and any(a in f for a in ("SetChargingProfile", "RemoteStartTransaction", "GetCompositeSchedule"))
-        if tier == "quick" and len(seen) % 3 and len(f) > 2 and not decimal_msg and \
-                not (isinstance(f, str) and ('[]' in f[:12] or '{}' in f[:12] or len(f) > 1000)):
-            continue
         hb = g.route("Heartbeat", ("ret", {"current_time": "t"}))
         rts = [hb]
         if decimal_msg:
@@ -186,8 +184,47 @@ def body_factory(tier, seed):
                 rep.violation("C18:corr:loop", "model and implementation disagree on %d receive-loop run(s)" % len(broken),
                               {"kind": "correspondence", "correspondence": "loop", "cases": [meta[i] for i in broken[:3]],
                                "theorem": "loop correspondence (Model/Dispatch.v start vs ChargePoint.start)"}, found_input=False)
+        cold_loops(rep, GD.Gen(tier, seed))
         rep.sample({"frames": [str(f)[:80] for f in cases[3][2]], "recv_exception": cases[3][3], "gate_held": cases[3][4]})
     return body
+
+
+PROFILE = ('{"chargingProfileId":1,"stackLevel":0,"chargingProfilePurpose":"TxProfile","chargingProfileKind":"Relative",'
+           '"chargingSchedule":{"chargingRateUnit":"A","chargingSchedulePeriod":[{"startPeriod":0,"limit":%s}]}}')
+
+
+def cold_frames(order):
+    scp = '[2,"scp-%s","SetChargingProfile",{"connectorId":1,"csChargingProfiles":' + PROFILE + '}]'
+    rst = '[2,"rst-%s","RemoteStartTransaction",{"idTag":"t","chargingProfile":' + PROFILE + '}]'
+    ints = [scp % ("int", "16"), '[2,"rst-none","RemoteStartTransaction",{"idTag":"t"}]', rst % ("int", "32")]
+    fracs = [scp % ("frac", "21.4"), rst % ("frac", "10.5"), scp % ("frac2", "0.1")]
+    hb = ['[2,"hb","Heartbeat",{}]']
+    return {"int-first": ints + fracs + ints[:1] + hb, "float-first": fracs + ints + fracs[:1] + hb,
+            "alternating": [x for pair in zip(ints, fracs) for x in pair] + hb}[order]
+
+
+def cold_loops(rep, g):
+    """The loop in a FRESH interpreter (nothing validated before), fed valid 1.6 CALLs of the decimal-validated actions
+    with whole-number and with fractional limits in either order: every one is answered with a CALLRESULT and the loop
+    ends only with the connection.  (In-process strata see these actions only after their validators are built.)"""
+    for order in ("int-first", "float-first", "alternating"):
+        frames = cold_frames(order)
+        routes = [g.route("Heartbeat", ("ret", {"current_time": "t"})), g.route("SetChargingProfile", ("ret", {"status": "Accepted"})),
+                  g.route("RemoteStartTransaction", ("ret", {"status": "Accepted"}))]
+        res = D.cold([("observe_loop", ("1.6", routes, frames, "closed", False), {})])[0]
+        rep.count("cold-loop:" + order)
+        replay = {"kind": "cold-loop", "order": order, "frames": frames}
+        if res[0] != "ok":
+            rep.violation("C18:cold-loop:%s:harness" % order, "the fresh-interpreter run failed: %r" % (res[1:],), replay, found_input=False)
+            continue
+        seq, how = res[1]
+        bad = oracle(frames, seq, how, "closed")
+        types = [json.loads(e[1])[0] for e in seq if e[0] == "send"]
+        if not bad and types != [3] * len(frames):
+            bad.append(("answers", "valid CALLs were answered with message types %r" % (types,)))
+        for key, what in bad:
+            rep.violation("C18:cold-loop:%s:%s" % (order, key.split(":")[0]),
+                          "fresh interpreter, valid 1.6 CALLs in the order %s: %s" % (order, what), dict(replay, observation=seq, ended=how))
 
 
 def run(rep, tier, seed):
@@ -198,6 +235,21 @@ def run(rep, tier, seed):
 
 
 def replay(d):
+    if d.get("kind") == "cold-loop":
+        class R:
+            violations = []
+
+            def count(self, *_a):
+                pass
+
+            def violation(self, key, what, *_a, **_k):
+                self.violations.append(key)
+                print(what)
+        r = R()
+        cold_loops(r, GD.Gen("quick", 0))
+        hit = [k for k in r.violations if (":%s:" % d["order"]) in k]
+        print("FAILS" if hit else "HOLDS")
+        return 1 if hit else 0
     if d.get("deep"):
         hit = [c for c in gen_cases("quick", 0) if len(c) > 6 and c[6] == d["deep"]]
         if not hit:
